@@ -243,7 +243,7 @@ pub fn run(ctx: &Ctx, rep: &mut Report) {
             p.push(' ');
             p.push_str(a);
         }
-        let tail = ["-true", "-print", "-false", "-o -true", "-name x", "-a", "-depth", "!", "-print0"][r.usize(9)];
+        let tail = ["-true", "-print", "-false", "-o -true", "-name x", "-a", "-depth", "!", "-print0", ",-true", ",-print", ", -true", ",x", ";-true", "=-true", "(-true)", "!-true", "\t-true", ")"][r.usize(19)];
         let text = in_context(&format!("{}{}", p, tail), r.below(5));
         run_case(&text, kw.word, &format!("glued:{}", i), true, rep);
     });
